@@ -251,6 +251,7 @@ func (x *Exec) doUnOp(i *ssa.UnOp) {
 				t := x.vals[i].T
 				x.smt.assume(implies(x.reach, "(and (>= (slen "+t+") 0) (>= (soff "+t+") 0))"))
 			}
+			x.refFact(x.vals[i].T, i.Type())
 		}
 	case token.NOT:
 		x.bind(i, tv(not(x.termOf(v))))
@@ -759,10 +760,14 @@ func (x *Exec) doNext(i *ssa.Next) {
 	size := "(select " + x.getSV("MapN", "(Array Int Int)") + " " + m + ")"
 	okc := x.smt.fresh("next.ok", "Bool")
 	k := x.smt.fresh("next.k", ks)
-	// ok <=> some key remains; when ok, k is in the domain and unvisited
-	x.smt.assume(implies(x.reach, "(= "+okc+" (and (not (= "+m+" 0)) (< "+cnt+" "+size+")))"))
-	x.smt.assume(implies(and(x.reach, okc), "(and (select "+dom+" "+k+") (not (select "+visited+" "+k+")))"))
-	x.smt.assume(implies(x.reach, "(and (<= 0 "+cnt+") (<= 0 "+size+"))"))
+	// when ok, k is a key of the map that has not been visited yet; when not ok,
+	// every key has been visited (the iteration is exhaustive; its termination and
+	// concurrent modification of the map are not modelled)
+	_ = size
+	x.smt.assume(implies(and(x.reach, okc), "(and (not (= "+m+" 0)) (select "+dom+" "+k+") (not (select "+visited+" "+k+")))"))
+	x.smt.assume(implies(and(x.reach, not(okc)), "(or (= "+m+" 0) (forall ((kk "+ks+")) (! (=> (select "+dom+" kk) (select "+visited+" kk)) :pattern ((select "+visited+" kk)))))"))
+	x.lastIter = sv
+	x.lastIterSort = "(Array " + ks + " Bool)"
 	val := "(select (select " + x.getSV(vsv, vso) + " " + m + ") " + k + ")"
 	x.setSV(sv, "(Array "+ks+" Bool)", ite(okc, "(store "+visited+" "+k+" true)", visited))
 	x.setSV(sv+".n", "Int", ite(okc, "(+ "+cnt+" 1)", cnt))
